@@ -123,4 +123,34 @@ def leavesOpenComment (after : List Trivia) : Bool :=
 /-- `"\n" + s` unless `s` is empty -/
 def nlBlock (s : Text) : Text := if s.isEmpty then [] else '\n' :: s
 
+/-! ### interstitial trivia -/
+
+/-- The whitespace `format_interstitial_trivia` writes before an item; it depends on the text
+    rendered so far only through "is it empty" and its last character. -/
+def interGlue (acc : Text) : Trivia → Text
+  | .emptyLine => if endsWithNL acc then ['\n'] else ['\n', '\n']
+  | .linebreak => if endsWithNL acc then [] else ['\n']
+  | .comma => []
+  | .comment c =>
+    if c.inline then
+      (if acc.isEmpty || !(acc.getLast? == some ' ' || endsWithNL acc) then [' '] else [])
+    else (if !acc.isEmpty && !endsWithNL acc then ['\n'] else [])
+
+/-- The pieces `format_interstitial_trivia` appends for one item. -/
+def interItemPieces (i : Nat) (nl : Bool) (acc : Text) : Trivia → List Piece
+  | .comment c =>
+    if c.inline then
+      [.ws (interGlue acc (.comment c)), .cmt (c.token 0)] ++ (if nl then [.ws ['\n']] else [])
+    else [.ws (interGlue acc (.comment c) ++ spaces i), .cmt (c.token i), .ws ['\n']]
+  | t => [.ws (interGlue acc t)]
+
+def interPieces (i : Nat) (nl : Bool) : List Trivia → Text → List Piece
+  | [], _ => []
+  | t :: rest, acc =>
+    interItemPieces i nl acc t ++ interPieces i nl rest (acc ++ piecesText (interItemPieces i nl acc t))
+
+def Trivia.isInlineComment : Trivia → Bool
+  | .comment c => c.inline
+  | _ => false
+
 end Nima
